@@ -914,8 +914,13 @@ fn run_child(exe: &Path, case: &Case, modes: &[&str], tmp: &str) -> (ChildRun, O
 fn run_case(exe: &Path, case: &Case, tmp: &str) -> ChildRun {
     let mut remaining: Vec<&str> = MODES.to_vec();
     let mut total = ChildRun { rejected: None, compiled: false, outs: BTreeMap::new(), matched: BTreeMap::new() };
+    let mut timeouts = 0;
     while !remaining.is_empty() {
-        let (run, _sig, _hard) = run_child(exe, case, &remaining, tmp);
+        let (run, sig, hard) = run_child(exe, case, &remaining, tmp);
+        // a child killed by the wall-clock limits is run again (twice at most): on a heavily loaded
+        // machine a child can starve although every scan has its own 1 s timeout; only a
+        // reproducible hard timeout is reported
+        if (hard || sig == Some(libc::SIGALRM)) && timeouts < 2 { timeouts += 1; continue; }
         if run.rejected.is_some() { total.rejected = run.rejected; return total; }
         if !run.compiled { total.rejected = Some("child died before the rules were compiled".into()); return total; }
         total.compiled = true;
